@@ -306,14 +306,19 @@ class disassembler(object):
                         # logger.debug(u'exception raised by disassembler:'
                         #             u'decoding %s with spec %s'%(codecs.encode(bytestring,'hex'),s.format))
                         continue
+                    except Exception:
+                        # the spec hook failed: forget pending prefixes so that
+                        # they don't leak into the next decoded instruction.
+                        self.__i = None
+                        raise
                     # we found the instruction (or prefix)
                     if i.spec.pfx is True:
                         if self.__i is None:
                             self.__i = i
                         return self(bytestring[s.mask.size // 8 :], **kargs)
-                    elif i.spec.pfx == "xdata":
-                        i.xdata(i,**kargs)
                     self.__i = None
+                    if i.spec.pfx == "xdata":
+                        i.xdata(i,**kargs)
                     if "address" in kargs:
                         i.address = kargs["address"]
                     return i
